@@ -68,6 +68,16 @@ def variant(st, p, n, suffix_aware):
     run_prop(st, "same_image_is_same_key/" + kind, S.same_image_is_same_key, kind, u, v, suffix_aware)
 
 
+TOK = [("http://www.example.co.uk/a", ""), ("https://blog.", ".co.uk:8080/p?q"), ("HTTP://FR.X.com.au/", "#f")]
+
+
+def tokenization(st, kind, i, n, suffix_aware):
+    pre, post = TOK[i]
+    h = sym_str(st, "s", n)
+    st.assume(z_and([z_not(ceq(c, 124)) for c in elems(h)]), "no |")
+    run_prop(st, "variant_tokenization/" + kind, S.variant_tokenization, kind, cat(pre, h, post), suffix_aware)
+
+
 def _shapes(maxlen):
     # stem list shapes: tags in hierarchical order s, h*, p*, q ; 'p:' may be empty
     base = [(0, False), (1, False), (1, False), (2, False), (2, True), (3, False)]
@@ -101,6 +111,11 @@ def items(tier):
                 sa = bool((i + n) % 2)
                 out.append({"fn": "url_api", "params": {"kind": kind, "i": i, "j": j, "k": k, "n": n, "suffix_aware": sa},
                             "name": "url_api %s %d%d%d n=%d" % (kind, i, j, k, n), "weight": 20 ** (n + 1)})
+    for kind in ("canonicalized", "normalized", "fingerprinted"):
+        for i in range(len(TOK)):
+            for n in range(0, (1 if quick else 2) + 1):
+                for sa in (False, True):
+                    out.append({"fn": "tokenization", "params": {"kind": kind, "i": i, "n": n, "suffix_aware": sa}, "name": "tokenization %s %d n=%d sa=%s" % (kind, i, n, sa), "weight": 10 ** n})
     for p in range(len(PAIRS)):
         for n in range(0, (2 if quick else 3) + 1):
             it = {"fn": "variant", "params": {"p": p, "n": n, "suffix_aware": bool(n % 2)}, "name": "variant %d n=%d" % (p, n), "weight": 8 ** n}
